@@ -4,9 +4,9 @@ CONSTANTS
   Size = 3
   MaxRead = 4
   Unit = FALSE
-  Variant = "fixed"
+  Variant = "eofok"
   MaxCalls = 4
-  Trunc = {9}
+  Trunc = {9, 7, 4}
 INVARIANTS NoReleaseBeforeVerify HistoryIndependence SequentialPrefix NoSilentTruncation
 PROPERTY EveryCallReturns
 CHECK_DEADLOCK FALSE
